@@ -169,7 +169,8 @@ impl AstLowering {
     /// Extract derives from decorators.
     ///
     /// Parses `@derive(Serialize, Deserialize)` decorators and returns the list
-    /// of derive names. Also adds prerequisite derives (e.g., Eq requires PartialEq).
+    /// of derive names. Also adds prerequisite derives (Eq and PartialOrd require PartialEq; Ord requires
+    /// PartialOrd, Eq and PartialEq).
     pub(super) fn extract_derives(&self, decorators: &[Spanned<ast::Decorator>]) -> Vec<String> {
         let mut derives = Vec::new();
 
@@ -211,6 +212,10 @@ impl AstLowering {
             if !has(&derives, partial_eq) {
                 derives.push(partial_eq.to_string());
             }
+        }
+        // PartialOrd requires PartialEq
+        if has(&derives, partial_ord) && !has(&derives, partial_eq) {
+            derives.push(partial_eq.to_string());
         }
 
         derives
